@@ -250,7 +250,7 @@ func violationClass(t *Table, f condFeat, o *scanOut) string {
 
 func inprocWorker(c *vf.Ctx, stream uint64) {
 	r := c.Rand(1000 + stream)
-	nTables := c.Pick(70, 900)
+	nTables := c.Pick(70, 600)
 	nConds := c.Pick(24, 40)
 	st := &inprocStats{}
 	if stream == 0 {
